@@ -7,3 +7,6 @@ test -x /venv/bin/python
 mkdir -p evidence replays
 # the simulated Lock/Event/Condition/Queue must work under the scheduler (20 seeded schedules)
 /venv/bin/python -B tools/selftest_simsync.py 20
+# informational: interpreters of the other supported Python versions for the cross-version tier
+# (vsim/xpy.py; directed specs of C05, C11, C13).  Missing ones are skipped, never an error.
+/venv/bin/python -B -c "import sys; sys.path.insert(0, '.'); from vsim import xpy; print('cross-version interpreters:', xpy.interpreters() or 'none found (tier silent)')" || true
